@@ -603,7 +603,7 @@ func checkC09(c *Ctx) {
 		"*zerr.RuntimeError (division by zero, index errors, …) and *value.Exception (failing built-ins as converted by Function.Exec); (C09.match) a handler is chosen by comparing its class name with the exception's class name, runs under an " +
 		"exception frame holding the exception as 其 and the catching body's module, its return slot becomes the body's value, and with no match the incoming error itself is returned; (C09.unwind) before the handler's frame is pushed the call " +
 		"stack is cut back, by a loop popping frames while len(stack) > depth, to the depth captured when the protected body was entered (captured before the body runs); (C09.frames) the handler's own frame is popped on every non-error exit; (C09.scopes) every block ends the Scope object it began (deferred on the BeginScope result), so blocks unwound by a propagating error act on their own module even while a failed callee's frame is on top. " +
-		"Also: Function.Exec returns a *Signal as the very same error value (an exception of a user-defined class keeps its class while propagating). (C09.value) no evaluator function returns the possibly-empty return slot as a value without a nil test (a handler without 输出 yields 空); (C09.loops = C02.signals) loops let everything but their own 继续/结束 signals through. NOT decided: state of other modules' symbol tables after arbitrary histories; only that the necessary unwinding operations exist on every path (their arithmetic is PopCallFrame's)."
+		"Also: Function.Exec returns a *Signal as the very same error value (an exception of a user-defined class keeps its class while propagating). (C09.value) no evaluator function returns the possibly-empty return slot as a value without a nil test (a handler without 输出 yields 空); (C09.loops = C02.signals) loops let everything but their own 继续/结束 signals through. NOT decided: state of other modules' symbol tables after arbitrary histories; only that the necessary unwinding operations exist on every path (their arithmetic is PopCallFrame's). (C09.channel …:every-failure-is-reported) Function.Exec returns an error for every kind of error its logic reports (classifying a kind in an empty switch case is not handling it); C09.errdrop covers every eval… / exec… / handle… function of pkg/exec."
 	R.Assumptions = []string{"PopCallFrame restores csModuleID from the new top frame (pkg/runtime/vm.go)", "Function.Exec converts non-signal errors of built-ins into *value.Exception"}
 	u := c.Core()
 	u.buildSSA()
